@@ -1,5 +1,6 @@
 import CobyqaVerif.Props.C15Improve
 import Mathlib.Analysis.Real.Sqrt
+import CobyqaVerif.Props.C16CauchyDir
 
 /-!
 # The hypotheses of `Props/C15Improve.lean` are satisfiable
@@ -21,3 +22,15 @@ theorem realParams_tiny (rtol : ℝ) (nsOf : ℝ → ℕ) : (realParams rtol nsO
 example : ∃ R : IParams ℝ, R.tiny = 0 ∧ SqrtExact R := ⟨realParams (1 / 100000000) (fun _ => 3), rfl, realParams_exact _ _⟩
 
 end Cobyqa.Tcg
+
+namespace Cobyqa.Cauchy
+
+/-- the hypotheses of `Props/C16CauchyDir.lean` on `np.sqrt` are met by the real square root -/
+noncomputable def realDParams : DParams ℝ := { sqrtO := Real.sqrt, tiny := 0 }
+
+theorem realDParams_pos : SqrtPos realDParams := fun x hx => Real.sqrt_pos.mpr hx
+
+theorem realDParams_exact : ∀ x : ℝ, 0 ≤ x → 0 ≤ realDParams.sqrtO x ∧ realDParams.sqrtO x * realDParams.sqrtO x = x :=
+  fun x hx => ⟨Real.sqrt_nonneg x, Real.mul_self_sqrt hx⟩
+
+end Cobyqa.Cauchy
